@@ -221,12 +221,15 @@ def gen(schema, defs, depth=2, cap=40):
             for i, j in itertools.combinations(range(len(objs)), 2):
                 for (a, fa) in objs[i][:4]:
                     for (b, fb) in objs[j][:4]:
+                        # under allOf every member of the merged object is declared by some branch of the intersection; under a
+                        # union it may be a member the matching branch does not declare (provenance flag "mix")
+                        mixf = set() if kw == "allOf" else {"mix"}
                         m = dict(a)
                         m.update(b)
-                        add(m, set(fa) | set(fb) | {"mix"})
+                        add(m, set(fa) | set(fb) | mixf)
                         m2 = dict(b)
                         m2.update(a)
-                        add(m2, set(fa) | set(fb) | {"mix"})
+                        add(m2, set(fa) | set(fb) | mixf)
     if "not" in s:
         out.extend(gen(s["not"], defs, depth, cap))
     return _dedup(out)
